@@ -152,3 +152,22 @@ Fixpoint sys_run (fixedc : bool) (m : mode) (s : sys) (ops : list op) : sys :=
 (* the system right after VirtIOConsole::new *)
 Definition sys_init (dev_feats addr ae uf : N) : sys :=
   let '(_, c, _) := console_new dev_feats addr ae uf in mkSys c dev_init [] [] [].
+
+(* ---------- the same system with the free-running indices standing anywhere ---------- *)
+(* The ring indices of both queues (and the device's copies of them) are 16-bit counters that wrap
+   after 65536 requests.  `sys_init_at start` is the system right after VirtIOConsole::new with every
+   one of those counters standing at `start` instead of 0 (what VirtQueue::verif_set_indices would
+   produce on the two fresh queues): the theorems are stated for EVERY start value, so that the
+   histories that cross the wrap (start = 65535, 65534 ...) are covered by a statement about a few
+   operations and not only as the far end of a history of 65536 operations.  start = 0 is the code. *)
+Definition console_new_at (start dev_feats addr ae uf : N) : outcome unit * cstate * list cev :=
+  let f := N.land dev_feats SUPPORTED_FEATURES in
+  let ind := has_flag f FEAT_INDIRECT in
+  let ev := has_flag f FEAT_EVENT_IDX in
+  poll_retrieve (mkC f (qset_indices (qnew QSIZE ind ev) start) (qset_indices (qnew QSIZE ind ev) start)
+                     [] 0 0 None) addr ae uf.
+
+Definition dev_init_at (start : N) : dev := mkDev start start [(0, 0); (0, 0)] [].
+
+Definition sys_init_at (start dev_feats addr ae uf : N) : sys :=
+  let '(_, c, _) := console_new_at start dev_feats addr ae uf in mkSys c (dev_init_at start) [] [] [].
